@@ -179,6 +179,8 @@ pub fn swarm(prop: &str, seed: u64) -> (GenCfg, Suffix, Shape) {
             c.w_op[OW_UNLINK] = 5;
             c.step = if r.chance(2, 3) { StepPolicy::One } else { StepPolicy::Mixed };
             c.max_objs = c.max_objs.min(16);
+            // fault kind: a destructor that unwinds while the sweep runs it (a third of the runs)
+            c.w_event[EW_DROP_FAULT] = if r.chance(1, 3) { 2 } else { 0 };
         }
         "C06" => {
             c.w_op[OW_BARRIER] = 3;
